@@ -83,6 +83,11 @@ P = {
    "Static analysis of three structural necessary conditions, not of model conformance: ordering decisions on generic numeric values use comparison operators (a difference overflows for integer element types); evaluated on the three orderings, Insert and searchNode route smaller and larger keys to the same side and search stops on equality; every Ring buffer index is begin/end or reduced modulo len(buffer) and begin/end advance only through nextIndex = (i+1) % len(buffer). Conformance to the FIFO/multiset models under arbitrary operation histories is not decided.",
    "Trusts go/types; values are only compared, so three orderings are exhaustive for the routing rule. Repaired: searchNode ordered by subtraction (930a477).",
    "§4 C17"),
+ "C18": (True,
+   "a type system for homogeneity degrees (price, volume) over the value terms of all indicators and strategies: linear degree forms, unification by exact Gaussian elimination; closure bodies and hand-written loops typed by flow-insensitive inference; sub-indicators through their inferred signature",
+   "Static analysis, sufficient over the reals: a solvable constraint system means every output of every indicator is a homogeneous function of a definite degree of the price series and of the volume series, and every comparison in every decision closure relates quantities of equal degree (or a quantity with 0), so multiplying all prices or all volumes by a positive constant scales each indicator by the corresponding power and changes no recommendation — by induction over the composition. Also checked: each indicator's degree equals the one its documented formula dictates (table: averages/bands/differences price, oscillators/ratios unit-free, accumulators volume, FI price·volume, EMV price²/volume); thresholds and fixed-digit rounding touch unit-free quantities only. Bit-exactness for power-of-two factors (no overflow/underflow) is not claimed.",
+   "Trusts go/types, the expected-degree table, 'configuration values are dimensionless'. Obv compares the close with an accumulated volume (pinned): known finding.",
+   "§4 C18"),
  "C19": (True,
    "typed-AST + go/cfg path lints on the reader goroutines and the HTTP client: bounds guard before indexing a decoded record, close deferred before any exit, error branches leave the loop, Body.Close on every path after a successful request, status check, file closed after the reader",
    "Static analysis of this repository's own reader code, not of the decoders: every index into a decoded CSV record is guarded against len(record); every reader goroutine closes its channel on all exits (go/cfg may-analysis); every error branch in a reader loop leaves the loop; ReadFromFile closes the file after the reader finished; in the Tiingo client a non-200 status is an error before decoding and the response body is closed on every control-flow path after a successful request; JSONToChan checks the opening delimiter. The behaviour of encoding/csv, encoding/json and net/http on arbitrary bytes is not decided.",
